@@ -66,5 +66,11 @@ CONFIG = {
         "repaired_witnesses_r4, corpus/C07/auth.ops",
         "`present` for a key of the power-levels content is what encoding/json assigns to the struct field (GoJson.lookupField: "
         "case-folded, last member wins)",
+        "the members of an m.room.member content (membership, third_party_invite, join_authorised_via_users_server, mxid_mapping) are "
+        "read by their EXACT names (GoJson.lookupExact, last member of that name wins) by the auth rules, StateNeededForAuth / "
+        "StateNeededForProtoEvent, Membership(), state resolution's control-event test and the handshakes alike (/repo 'member content "
+        "was read under case variants of its member names' + 'every reader of member content matches member names exactly'); the "
+        "members INSIDE third_party_invite / mxid_mapping, and the contents of create / power_levels / join_rules / third_party_invite "
+        "events, are still matched by encoding/json's folded comparison in code and model",
     ],
 }
